@@ -93,6 +93,11 @@ CHECKS['C07'] = ('deviation-bounded space (<=3 of 10 slots) of modified proteins
                  'every peptide = slice of the abstract protein (residue mods re-indexed, terminal mods only with their '
                  'terminus, intervals, static/isotope carried), string == annotation, found at its offset, mass '
                  'conservation of the zero-missed-cleavage peptides', 'DESIGN.md section 4 / C07')
+CHECKS['C14'] = ('every composition with <=7 (quick) / <=12 (thorough, 18563) atoms over C,H,N,O,S,P compared cluster by cluster with '
+                 'the exact multinomial expansion from the frozen isotope table at resolutions 5 and 6; identity clauses '
+                 '(sorted, max/sum normalisation, lightest peak = monoisotopic mass incl. e/p/n, mean = average mass, '
+                 'neutron view = mass view binned, merge adds) on a count grid up to 200 atoms incl. fractional counts, '
+                 'labelled elements, Se/Cl/Br/Fe x 7 option axes at deviation<=2', 'DESIGN.md section 4 / C14')
 NOT_APPLICABLE = {}
 
 
